@@ -21,7 +21,7 @@ import os
 
 from . import alias
 
-MAX_BLOCKS = 120
+MAX_BLOCKS = 320
 MAX_ROUNDS = 4
 
 
